@@ -219,12 +219,65 @@ def _plain(o):
     return o
 
 
+ROUTES = {"function": 0, "class": 0}
+CLASS_OF = {"parafac": "CP", "nn_parafac": "CP_NN", "nn_parafac_hals": "CP_NN_HALS", "constrained_parafac": "ConstrainedCP", "randomised_parafac": "RandomizedCP",
+            "tucker": "Tucker", "nn_tucker": "Tucker_NN", "nn_tucker_hals": "Tucker_NN_HALS", "parafac2": "Parafac2", "tr_als": "TensorRingALS"}
+
+
+def _run_class(algo, data, rank, n_iter_max, opts, seed, tol, init, callback):
+    """the same run through the estimator class (the other public entry point); None when the class does not take these options"""
+    import inspect
+    from tensorly import decomposition as D
+    from tensorly.decomposition import _tucker
+    name = CLASS_OF[algo]
+    Cls = getattr(D, name, None) or getattr(_tucker, name)
+    params = inspect.signature(Cls.__init__).parameters
+    kw = dict(opts)
+    kw["n_iter_max"] = n_iter_max
+    if "random_state" in params:
+        kw["random_state"] = seed
+    if init is not None:
+        kw["init"] = init
+    elif algo == "parafac2":
+        kw.setdefault("init", "random")
+    elif algo == "randomised_parafac":
+        kw.setdefault("init", "random")
+    elif algo != "tr_als":
+        kw.setdefault("init", "svd")
+    if tol is not None:
+        kw["tol_outer" if algo == "constrained_parafac" else "tol"] = tol
+    if callback is not None:
+        kw["callback"] = callback
+    if algo == "randomised_parafac":
+        kw.setdefault("n_samples", 20)
+    if any(k not in params for k in kw):
+        return None
+    if "return_errors" in params:
+        kw["return_errors"] = True
+    est = Cls(rank, **kw)
+    out = est.fit_transform(data["slices"] if algo == "parafac2" else data["X"])
+    if type(out) is tuple and len(out) == 2 and isinstance(out[1], list):
+        dec, errs = out
+    else:
+        dec, errs = out, getattr(est, "errors_", None)
+    if algo == "tr_als":
+        errs = None
+    return {"decomp": dec, "errors": None if errs is None else list(errs), "route": "class"}
+
+
 def run(algo, data, rank, n_iter_max, opts=None, seed=0, tol=None, init=None, callback=None):
-    """Run one algorithm through its public entry point. Returns dict(decomp=<returned object>, errors=list|None)."""
+    """Run one algorithm through one of its public entry points (the function, or for a quarter of the seeds the estimator class).
+    Returns dict(decomp=<returned object>, errors=list|None)."""
     import tensorly as tl
     from tensorly import decomposition as D
     from tensorly.decomposition import _cmtf_als
     opts = dict(opts or {})
+    if algo in CLASS_OF and seed % 4 == 0:
+        r = _run_class(algo, data, rank, n_iter_max, opts, seed, tol, init, callback)
+        if r is not None:
+            ROUTES["class"] += 1
+            return r
+    ROUTES["function"] += 1
     kw = {}
     if tol is not None:
         kw["tol"] = tol
@@ -232,8 +285,8 @@ def run(algo, data, rank, n_iter_max, opts=None, seed=0, tol=None, init=None, ca
     if algo == "parafac":
         out = D.parafac(X, rank, n_iter_max=n_iter_max, init=init if init is not None else opts.pop("init", "svd"), random_state=seed,
                         return_errors=True, callback=callback, **kw, **opts)
-        if not isinstance(out, tuple):  # all modes fixed: parafac returns the bare CPTensor even with return_errors=True
-            return {"decomp": out, "errors": None}
+        if type(out) is not tuple:  # return_errors=True promises (decomposition, errors) on every path; C14 reports "bare_return"
+            return {"decomp": out, "errors": None, "bare_return": True}
         return {"decomp": out[0], "errors": list(out[1])}
     if algo == "nn_parafac":
         out = D.non_negative_parafac(X, rank, n_iter_max=n_iter_max, init=init if init is not None else opts.pop("init", "svd"), random_state=seed,
